@@ -5,6 +5,7 @@ import (
 	"runtime"
 	"strconv"
 	"strings"
+	"sync"
 )
 
 // Goroutine dumps: evidence for "this goroutine is parked (and on what)" that does not depend
@@ -18,9 +19,12 @@ type GInfo struct {
 }
 
 var gdumpBuf = make([]byte, 1<<20)
+var gdumpMu sync.Mutex
 
-// GDump must be called from one goroutine at a time (the scenario controller).
+// GDump takes a stop-the-world dump of all goroutines (safe for concurrent callers).
 func GDump() map[int]*GInfo {
+	gdumpMu.Lock()
+	defer gdumpMu.Unlock()
 	for {
 		n := runtime.Stack(gdumpBuf, true)
 		if n < len(gdumpBuf) {
